@@ -47,12 +47,12 @@ def rt : Handler := fun args impl =>
     | _, _ => unmodelled
   | _ => unmodelled
 
-inductive ROp | b | h | w | q | x | r (n : Nat) | a | s (n : Nat) | sl (len rew : Nat) | up
+inductive ROp | b | h | w | q | x | r (n : Nat) | a | s (n : Nat) | sl (len rew : Nat) | up | len | hd
 
 def parseR (t : String) : Option ROp :=
   match t.splitOn ":" with
   | ["b"] => some .b | ["h"] => some .h | ["w"] => some .w | ["q"] => some .q | ["x"] => some .x
-  | ["a"] => some .a | ["up"] => some .up
+  | ["a"] => some .a | ["up"] => some .up | ["len"] => some .len | ["hd"] => some .hd
   | ["r", n] => n.toNat?.map .r
   | ["s", n] => n.toNat?.map .s
   | ["sl", l, r] => do
@@ -95,17 +95,27 @@ def runR : List ROp → List Dec → List String → List String
       | .up => match rest with
         | p :: _ => runR ops rest (s!"]@{p.offset}" :: out)
         | [] => "panic" :: out
+      -- Length(): bytes left, negative once the position is past the end (after a Skip / SkipAlign)
+      | .len => runR ops (d :: rest) (s!"L{length d}" :: out)
+      -- Header.Decode: an error (never a panic) when fewer than 8 bytes are left
+      | .hd => match headerDecode d with
+        | some (h, d) => runR ops (d :: rest) (s!"H{h.version.toNat}.{h.type.toNat}.{h.length.toNat}.{h.xid.toNat}" :: out)
+        | none => runR ops (d :: rest) ("err" :: out)
 
 def mkSlice (bs : Bytes) (len : Nat) : Slice := ⟨bs, len⟩
 
 /-- `dec <hex of backing array> <len> <script>` -/
-def dec : Handler := fun args _ =>
+def dec : Handler := fun args impl =>
   match args with
   | [hx, ln, s] =>
     match ofHex hx, ln.toNat?, (if s = "." then some [] else (s.splitOn ",").mapM parseR) with
     | some bs, some len, some ops =>
       if len ≤ bs.length then
-        { model := " ".intercalate (runR ops [newDecoder (mkSlice bs len)] []).reverse }
+        let m := " ".intercalate (runR ops [newDecoder (mkSlice bs len)] []).reverse
+        -- a script whose reads all stay inside the data never panics (a header asked for past the end is an error)
+        let o := if (m.splitOn "panic").length = 1 ∧ (impl.splitOn "panic").length > 1
+          then some s!"decoder script {s} on {len} bytes: {impl} (want {m})" else none
+        { model := m, oracle := o }
       else unmodelled
     | _, _, _ => unmodelled
   | _ => unmodelled
